@@ -151,7 +151,11 @@ def s11_region(it):
 def s18_names(it):
     """known finding S18: the producer of `Signal z = x | "type"` (a projection of a named value) is
     labelled with x's name instead of z's"""
-    return {d[1] for d in it.decls if d[0] == "sig" and d[2][0] == "proj" and d[2][1][0] == "var"}
+    def base(e):
+        while e[0] == "proj":       # x | "t1" | "t2" is still a projection of the named value x
+            e = e[1]
+        return e
+    return {d[1] for d in it.decls if d[0] == "sig" and d[2][0] == "proj" and base(d[2])[0] == "var"}
 
 
 def run(tier, seed, t0):
